@@ -10,6 +10,7 @@ import (
 	"log/slog"
 	"net"
 	"os"
+	"strings"
 	"sync"
 	"sync/atomic"
 	"syscall"
@@ -738,7 +739,127 @@ func lateResponse(c *core.Ctx, r *core.Rand, i int) {
 	leak(c, base, "late-response", label)
 }
 
+// stalledWrite: the write of a request stalls (full send buffer) past the caller's deadline. The caller gets its
+// error; whatever becomes of that request, the next call gets the response to ITS request, on a healthy connection.
+func stalledWrite(c *core.Ctx, r *core.Rand, i int) {
+	base := len(census.Goroutines())
+	w := newWorld(c, "none", 1<<30)
+	cl, err := kmipclient.Dial("mem", kmipclient.WithDialerUnsafe(w.dialer), kmipclient.EnforceVersion(kmip.V1_4))
+	if err != nil {
+		panic(err)
+	}
+	label := fmt.Sprintf("stall%d", i)
+	for k, n := 0, r.Intn(3); k < n; k++ {
+		w.call(cl, fmt.Sprintf("%s-warm%d", label, k))
+	}
+	w.mu.Lock()
+	cc := w.clientConn[len(w.clientConn)-1]
+	w.mu.Unlock()
+	stall := time.Duration(40+r.Intn(60)) * time.Millisecond
+	var used atomic.Bool
+	cc.SetInject(func(op string, idx int) *memnet.Fault {
+		if op == "write" && !used.Swap(true) {
+			return &memnet.Fault{Delay: stall}
+		}
+		return nil
+	})
+	ctx, cancel := context.WithTimeout(context.Background(), time.Duration(5+r.Intn(15))*time.Millisecond)
+	var o1 outcome
+	core.Guard(func() {
+		resp, err := cl.Activate(label + "-stalled").ExecContext(ctx)
+		o1 = outcome{id: label + "-stalled", err: err}
+		if err == nil && resp != nil {
+			o1.got = resp.UniqueIdentifier
+		}
+	})
+	cancel()
+	c.Count("stalled_writes", 1)
+	if o1.err == nil && o1.got != o1.id {
+		c.Violation("C11:wrong-response:stalled-write", fmt.Sprintf("the stalled call returned %q (%s)", o1.got, label), nil)
+	}
+	if i%2 == 0 {
+		time.Sleep(stall) // let the stalled write finish first: the request goes out after its caller has given up
+	}
+	w.kind = "stalled-write"
+	w.judge(label, []outcome{w.call(cl, label+"-next1"), w.call(cl, label+"-next2"), w.call(cl, label+"-next3")})
+	c.Distinct(core.Hash64("stalled", fmt.Sprint(i%2, stall)))
+	core.Guard(func() { cl.Close() })
+	w.srv.Close()
+	leak(c, base, "stalled-write", label)
+}
+
+// negotiationReconnect: during Dial the first connection is lost (the server closes it after reading the discovery
+// request), the client reconnects, and on the healthy second connection the negotiation fails for good (no common
+// version). Dial returns an error - and must not leave that second connection behind.
+func negotiationReconnect(c *core.Ctx, r *core.Rand, i int) {
+	base := len(census.Goroutines())
+	var seen atomic.Int64
+	variant := i % 3
+	srv := script.NewServer(func(rx script.Received, conn *memnet.Conn) *kmip.ResponseMessage {
+		n := seen.Add(1)
+		if n == 1 {
+			conn.Close() // read completely, no answer: a retriable loss
+			return nil
+		}
+		switch variant {
+		case 0: // versions the client does not have
+			return script.OK(rx.Msg, func(int, *kmip.RequestBatchItem) kmip.OperationPayload {
+				return &payloads.DiscoverVersionsResponsePayload{ProtocolVersion: []kmip.ProtocolVersion{kmip.V1_0}}
+			})
+		case 1: // an empty list
+			return script.OK(rx.Msg, func(int, *kmip.RequestBatchItem) kmip.OperationPayload {
+				return &payloads.DiscoverVersionsResponsePayload{}
+			})
+		default: // a failure other than "discovery not supported"
+			resp := script.OK(rx.Msg, func(int, *kmip.RequestBatchItem) kmip.OperationPayload { return nil })
+			resp.BatchItem[0].ResultStatus = kmip.ResultStatusOperationFailed
+			resp.BatchItem[0].ResultReason = kmip.ResultReasonPermissionDenied
+			resp.BatchItem[0].ResultMessage = "no"
+			return resp
+		}
+	})
+	var dials atomic.Int64
+	dial := func(context.Context) (net.Conn, error) { dials.Add(1); return srv.L.Dial() }
+	var cl *kmipclient.Client
+	var err error
+	cluster := (i/3)%2 == 1
+	if p, pv, st := core.Guard(func() {
+		opts := []kmipclient.Option{kmipclient.WithDialerUnsafe(dial), kmipclient.WithKmipVersions(kmip.V1_4, kmip.V1_3)}
+		if cluster {
+			cl, err = kmipclient.DialCluster([]string{"mem-a"}, opts...)
+		} else {
+			cl, err = kmipclient.Dial("mem", opts...)
+		}
+	}); p {
+		c.Violation(core.PanicSig(pv, st), fmt.Sprintf("Dial panicked: %v", pv), map[string]any{"stack": st})
+		srv.Close()
+		return
+	}
+	c.Count("negotiation_reconnects", 1)
+	label := fmt.Sprintf("negotiation fails on the connection that replaced a lost one (variant %d, cluster=%v, %d dials)", variant, cluster, dials.Load())
+	if err == nil {
+		c.Violation("C11:dial-succeeds-without-version", "Dial succeeds although the negotiation cannot ("+label+")", nil)
+		cl.Close()
+	}
+	if dials.Load() >= 2 {
+		c.Count("negotiation_reconnects.second-connection-used", 1)
+	}
+	c.Distinct(core.Hash64("negotiation-reconnect", fmt.Sprint(variant, cluster)))
+	// the failed Dial owns nothing any more: with the server still up, nothing of the client may remain
+	c.Count("census_checks", 1)
+	if left := census.Settle(base, 10*time.Second); len(left) > 0 {
+		for _, g := range left {
+			if strings.Contains(g, "kmipclient.") {
+				c.Violation("C11:goroutines-left:"+census.BlockedIn(g), fmt.Sprintf("a failed Dial leaves client goroutines behind, blocked in %s (%s)", census.BlockedIn(g), label), map[string]any{"goroutine": g})
+				break
+			}
+		}
+	}
+	srv.Close()
+}
+
 func Spec() *core.Spec {
+
 	slog.SetDefault(slog.New(slog.NewTextHandler(io.Discard, nil)))
 	return &core.Spec{
 		ID:    "C11",
@@ -747,10 +868,10 @@ func Spec() *core.Spec {
 		Rule: "scenario {Dial with version negotiation, call 1, call 2, call 3, Close, call after Close, Close again} against a scripted in-memory server; for EVERY I/O operation index 0..25 of the first connection (the scenario uses ~20) and every kind " +
 			"{read EOF, read on closed, read ECONNRESET, write EPIPE, write ECONNRESET, short write, server closes right after replying to request k, server closes right after reading request k} the scenario is rerun with that fault (later connections are fault-free); " +
 			"plus a server that drops the connection after reading the request 1..8 times in a row (transmission budget), dialer failures during reconnect, 4/8/16 concurrent callers with a fault, and directed schedules through the verif hooks (connection torn down between loading the tx channel and using it; caller gone while the write loop reports an error; Close during a call). " +
-			"Monitors: panic/crash, own-id response or error, never two consecutive failed calls, <= 4 transmissions per request, calls fail after Close, goroutine census after Close. a response whose frame-completing Read is handed over only when the connection is closed (call abandoned by cancel, deadline or Close); two fault kinds that leave the peer healthy (io.ErrShortWrite; error after complete delivery); distinct = distinct (scenario kind, fault kind, operation index)",
+			"Monitors: panic/crash, own-id response or error, never two consecutive failed calls, <= 4 transmissions per request, calls fail after Close, goroutine census after Close. a response whose frame-completing Read is handed over only when the connection is closed (call abandoned by cancel, deadline or Close); a write stalling past the caller's deadline; Dial losing its first connection and failing the negotiation on the second; two fault kinds that leave the peer healthy (io.ErrShortWrite; error after complete delivery); distinct = distinct (scenario kind, fault kind, operation index)",
 		Assumptions: []string{"recovery rule used: while the server is reachable and new connections are fault-free, two consecutive calls never both fail (a call pending at, or first after, the fault may fail)",
 			"goroutines gone = none with a library frame within 10 s of closing the client and the server (bounded progress)"},
-		Required: []string{"calls", "late_responses_held", "double_faults_both_fired", "faults_fired.read-eof", "faults_fired.read-reset", "faults_fired.write-epipe", "faults_fired.short-write", "faults_fired.short-write-peer-stays", "faults_fired.write-error-after-delivery", "faults_fired.server-closes-after-reply", "faults_fired.server-closes-after-read",
+		Required: []string{"calls", "late_responses_held", "stalled_writes", "negotiation_reconnects.second-connection-used", "double_faults_both_fired", "faults_fired.read-eof", "faults_fired.read-reset", "faults_fired.write-epipe", "faults_fired.short-write", "faults_fired.short-write-peer-stays", "faults_fired.write-error-after-delivery", "faults_fired.server-closes-after-reply", "faults_fired.server-closes-after-read",
 			"census_checks", "calls_after_close", "repeated_drops.k4", "repeated_drops.k5", "dialer_failure_scenarios", "concurrent_scenarios", "directed.terminate-before-send-select", "directed.close-in-flight"},
 		Shards: func(string) int { return 8 },
 		Families: []core.Family{
@@ -762,6 +883,18 @@ func Spec() *core.Spec {
 				}
 				return 120
 			}, Run: doubleFault, Timeout: 40 * time.Second},
+			{Name: "stalled-write", N: func(tier string) int {
+				if tier == core.Thorough {
+					return 1500
+				}
+				return 40
+			}, Run: stalledWrite, Timeout: 60 * time.Second},
+			{Name: "negotiation-reconnect", N: func(tier string) int {
+				if tier == core.Thorough {
+					return 600
+				}
+				return 24
+			}, Run: negotiationReconnect, Timeout: 60 * time.Second},
 			{Name: "late-response", N: func(tier string) int {
 				if tier == core.Thorough {
 					return 3000
